@@ -5,8 +5,9 @@
     operation either takes effect on the shared file system or fails without effect (an injected
     or real I/O error); a read may return anything (what the file system holds at that moment, a
     short read, an error).  A crash is "no further step" - every reachable state is a possible
-    post-crash state - plus [ss_cut]: the process dies in the middle of a write, of which only a
-    prefix reaches the file. *)
+    post-crash state - plus [ss_cut]: a worker is killed in the middle of a write, of which only a
+    prefix reaches the file; that worker's program never continues (the other workers may still
+    perform a few operations before the process is gone, as observed in killed multi-threaded runs). *)
 From TB Require Import Base TorrentModel PathModel FsModel SolverModel RunModel.
 Local Open Scope N_scope.
 
@@ -30,7 +31,7 @@ Inductive sstep : sys -> sys -> Prop :=
     sstep {| s_fs := f; s_pool := pool |} {| s_fs := f; s_pool := set_nth pool i (k false) |}
 | ss_cut f pool i p off d k n f' : nth_error pool i = Some (Mut (WriteAt p off d) k) ->
     apply_op f (WriteAt p off (firstn n d)) = (f', true) ->
-    sstep {| s_fs := f; s_pool := pool |} {| s_fs := f'; s_pool := [] |}
+    sstep {| s_fs := f; s_pool := pool |} {| s_fs := f'; s_pool := set_nth pool i (Ret Fault) |}
 | ss_lock f pool i id k : nth_error pool i = Some (Lock id k) ->
     sstep {| s_fs := f; s_pool := pool |} {| s_fs := f; s_pool := set_nth pool i k |}
 | ss_unlock f pool i id k : nth_error pool i = Some (Unlock id k) ->
@@ -77,7 +78,7 @@ Definition sys_do (s : sys) (i : nat) (ev : sev) : option sys :=
       | SCut n => match o with
                   | WriteAt p off d =>
                       match apply_op (s_fs s) (WriteAt p off (firstn n d)) with
-                      | (f', true) => Some {| s_fs := f'; s_pool := [] |}
+                      | (f', true) => Some {| s_fs := f'; s_pool := set_nth (s_pool s) i (Ret Fault) |}
                       | _ => None
                       end
                   | _ => None
